@@ -7,6 +7,8 @@ From InvokeVerif Require Export Model.ReadLoopModel Spec.C02Spec.
 Record case := mk {
   c_in : run_in;
   c_done : bool;      (* run()/join() came back with a Result (or a Failure carrying one) in time *)
+  c_silent : bool;    (* nothing went to the stream objects the run was NOT told to use
+                         (sys.stdout/sys.stderr when out_stream/err_stream are given, and vice versa) *)
   c_obs : run_obs
 }.
 
@@ -28,7 +30,16 @@ Definition obs_eqb (a b : run_obs) : bool :=
 Definition obs_text_eqb (a b : run_obs) : bool :=
   text_eqb (ro_stdout a) (ro_stdout b) && text_eqb (ro_stderr a) (ro_stderr b) &&
   text_eqb (ro_out_stream a) (ro_out_stream b) && text_eqb (ro_err_stream a) (ro_err_stream b).
-Definition corr (c : case) : bool := c_done c && obs_text_eqb (run_model_inc (c_in c)) (c_obs c).
+(* ... so the watcher submissions are compared exactly unless a byte ED occurs *)
+Definition script_has_ed (s : list rev) : bool :=
+  existsb (fun ev => match ev with RChunk bs => existsb (N.eqb 237) bs | RExit => false end) s.
+Definition has_ed (i : run_in) : bool := script_has_ed (ri_out i) || script_has_ed (ri_err i).
+
+Definition corr (c : case) : bool :=
+  c_done c && c_silent c && obs_text_eqb (run_model_inc (c_in c)) (c_obs c) &&
+  (has_ed (c_in c) ||
+   (texts_eqb (ro_out_submits (run_model_inc (c_in c))) (ro_out_submits (c_obs c)) &&
+    texts_eqb (ro_err_submits (run_model_inc (c_in c))) (ro_err_submits (c_obs c)))).
 
 (* Correspondence with the per-read loop the code had before the fix (historical;
    a tree that reverts the fix satisfies this one instead). *)
@@ -39,7 +50,7 @@ Definition spec_in (i : run_in) (o : run_obs) : bool :=
           (ri_async i) (ri_out_given i) (ri_err_given i) (ri_pty i)
           (ro_stdout o) (ro_stderr o) (ro_out_stream o) (ro_err_stream o).
 
-Definition spec (c : case) : bool := c_done c && spec_in (c_in c) (c_obs c).
+Definition spec (c : case) : bool := c_done c && c_silent c && spec_in (c_in c) (c_obs c).
 
 (** Decoder validation: model and reference against CPython. *)
 Record dcase := mkd { d_enc : enc; d_bytes : bytes; d_text : text }.
